@@ -95,6 +95,12 @@ MACROS = {
 }
 
 
+sys.path.insert(0, os.path.dirname(os.path.abspath(__file__)))
+import ccanon
+import action_texts
+CANON = {ccanon.canon(t): c for c, t in action_texts.GRAMMAR_ACTIONS.items()}
+
+
 def coq_string(s):
     return '"' + s.replace('"', '""') + '"'
 
@@ -144,7 +150,7 @@ def main():
     for mm in re.finditer(r"case\s+(\d+):(.*?)break;\s*(?=case\s+\d+:|\Z)", body, re.S):
         n = int(mm.group(1))
         txt = norm(mm.group(2))
-        a = FIXED.get(txt)
+        a = CANON.get(ccanon.canon(mm.group(2)))
         if a is None:
             unknown += 1
             a = "(GUnknown %s)" % coq_string(txt[:400])
